@@ -325,7 +325,8 @@ func c05(c *Ctx) {
 						return true
 					}
 					isKeyField := func(e ast.Expr) bool { fv, _ := fieldOf(ainfo, e); return fv != nil && fv.Name() == "Key" }
-					isK := func(e ast.Expr) bool { v, ok := objOf(ainfo, e).(*types.Var); return ok && v.Name() == "k" }
+					kParam := fn.Obj.Type().(*types.Signature).Params().At(0) // the key being looked up
+					isK := func(e ast.Expr) bool { return sameVar(ainfo, e, kParam) }
 					if (isKeyField(l) && isK(r) && op == token.GEQ) || (isK(l) && isKeyField(r) && op == token.LEQ) {
 						geq = true
 					}
